@@ -21,7 +21,8 @@ TDSUB = [(r'Traits::region_extension_type', 'XV_REGION_EXT', 'traits_region_exte
          (r'Traits::abandon_strategy::apply', 'ABANDON_apply', 'traits_abandon'),
          (r'detail::delete_objects', 'DELETE_OBJECTS', 'delete_objects'),
          (r'\bconstexpr\b', 'const', 'constexpr'),
-         (r'std::min<int>', 'XV_MIN_INT', 'min_int')]
+         (r'std::min<int>', 'XV_MIN_INT', 'min_int'),
+         (r'(\((?:[^()]|\([^()]*\))*\)|\b\w+) % number_epochs', r'XV_MOD_NE(\1)', 'mod_number_epochs')]
 TDMETH = {'empty': 'RL_empty', 'steal': 'RL_steal', 'push': 'RL_push', 'size': 'RL_size', 'add': 'OL_add', 'adopt': 'OL_adopt',
           'release_entry': 'TBL_release_entry', 'acquire_entry': 'TBL_acquire_entry', 'scan': 'SCAN_scan', 'reset': 'SCAN_reset',
           'begin': 'TBL_begin', 'end': 'TBL_end'}
@@ -81,7 +82,7 @@ SOURCES = [
     TD(id='ensure_has_control_block', sig=r'void ensure_has_control_block\(\)', c_sig='static void td_ensure_has_control_block(struct td* self)',
        must_fire={'self_call:acquire_control_block': 1}),
     TD(id='acquire_control_block', sig=r'XENIUM_NOINLINE void acquire_control_block\(\)', c_sig='static void td_acquire_control_block(struct td* self)',
-       must_fire={'method:acquire_entry': 1, 'A_LOAD': 2, 'A_STORE': 1, 'method:reset': 1}),
+       must_fire={'method:acquire_entry': 1, 'A_LOAD': 2, 'A_STORE': 1, 'method:reset': 1, 'subst:mod_number_epochs': 1}),
     TD(id='set_critical_region_flag', sig=r'void set_critical_region_flag\(\)', c_sig='static void td_set_critical_region_flag(struct td* self)',
        must_fire={'A_STORE': 1, 'A_LOAD': 1}),
     TD(id='clear_critical_region_flag', sig=r'void clear_critical_region_flag\(\)', c_sig='static void td_clear_critical_region_flag(struct td* self)',
@@ -91,7 +92,7 @@ SOURCES = [
        must_fire={'A_LOAD': 4, 'self_call:set_critical_region_flag': 2, 'self_call:update_local_epoch': 2, 'self_call:update_global_epoch': 1,
                   'method:scan': 1, 'subst:traits_scan_frequency': 1, 'subst:traits_region_extension': 2}),
     TD(id='update_local_epoch', sig=r'void update_local_epoch\(epoch_t new_epoch\)', c_sig='static void td_update_local_epoch(struct td* self, epoch_t new_epoch)',
-       must_fire={'A_LOAD': 1, 'A_STORE': 1, 'method:steal': 1, 'subst:delete_objects': 1, 'subst:min_int': 1, 'method:reset': 1}),
+       must_fire={'A_LOAD': 1, 'A_STORE': 1, 'method:steal': 1, 'subst:delete_objects': 1, 'subst:min_int': 1, 'method:reset': 1, 'subst:mod_number_epochs': 1}),
     TD(id='update_global_epoch', sig=r'epoch_t update_global_epoch\(epoch_t curr_epoch, epoch_t new_epoch\)',
        c_sig='static epoch_t td_update_global_epoch(struct td* self, epoch_t curr_epoch, epoch_t new_epoch)',
        must_fire={'A_LOAD': 1, 'A_CAS': 1, 'A_FENCE': 1}),
@@ -162,6 +163,7 @@ for re_, rv in RE.items():
     RUNS.append(R('leave_region_%s' % re_, 'h_leave_region', defs=dict(XV_REGION_EXT=rv, XV_ABANDON=1)))
     RUNS.append(R('leave_region_%s_threshold' % re_, 'h_leave_region', defs=dict(XV_REGION_EXT=rv, XV_ABANDON=2), tiers=('thorough',)))
 RUNS.append(R('set_flag', 'h_set_flag'))
+RUNS.append(R('mod_lemma', 'h_mod_lemma', cls='unbounded', note='facts about % number_epochs that the ghost remainders of the other runs rely on'))
 for sc in ['all', 'n1']:
     RUNS.append(R('update_local_epoch_' + sc, 'h_update_local_epoch', defs=SC[sc], note='all 64-bit old/new epochs with new > old'))
     RUNS.append(R('acquire_cb_' + sc, 'h_acquire_cb', defs=SC[sc]))
@@ -225,6 +227,7 @@ UNIT = dict(
     'ebr.dtor.hands_over_all': dict(deciding=True, text='~thread_data leaves all retire lists of the thread empty, deletes nothing, and every node is in the orphan slot of its list index'),
     'ebr.dtor.releases_record': dict(deciding=True, text='C17: ~thread_data releases the record exactly once with is_in_critical_region == false, so it never blocks a scan'),
     'ebr.adopt.reinit': dict(deciding=True, text='C17: acquire_control_block on an arbitrary left-over record: local_epoch == a freshly loaded global epoch, local_epoch_idx == local_epoch % number_epochs, scan strategy reset, flag false, retire lists empty; records are acquired only when the thread has none'),
+    'ebr.model.mod_lemma': dict(deciding=False, text='model self-check: (x+-j) % number_epochs = ((x % number_epochs) +- j) mod number_epochs for j <= 3 without wrap-around; small values'),
     'ebr.enter.invariant': dict(deciding=True, text='the thread_data representation invariant (counters vs flag per region_extension, epoch index, tags of all lists, local epoch <= global epoch) is preserved by every operation'),
   },
   canaries=[],
